@@ -140,7 +140,48 @@ pub fn apply(o: &mut Object, op: &J, salt: usize) -> J {
 			json!({"v": unval(&got)})
 		}
 		"clone" => {
-			let c = o.clone();
+			// every route by which the standard library duplicates an object
+			let c = match salt % 4 {
+				0 => o.clone(),
+				1 => match json_syntax::Value::Object(o.clone()).clone() {
+					json_syntax::Value::Object(c) => c,
+					_ => unreachable!(),
+				},
+				2 => vec![o.clone()].clone().pop().unwrap(),
+				_ => o.iter().cloned().collect::<Vec<Entry>>().into_iter().collect(),
+			};
+			*o = c;
+			json!({"some": false})
+		}
+		"clone_from" => {
+			// Clone::clone_from into an object that already holds other entries (op.es), directly and through
+			// the containers whose clone_from reuses their elements
+			let junk = Object::from_vec(build_entries(&op["es"]));
+			let c = match salt % 4 {
+				0 => {
+					let mut t = junk;
+					t.clone_from(o);
+					t
+				}
+				1 => {
+					let mut t = vec![junk];
+					t.clone_from(&vec![o.clone()]);
+					t.pop().unwrap()
+				}
+				2 => {
+					let mut t = Some(junk);
+					t.clone_from(&Some(o.clone()));
+					t.unwrap()
+				}
+				_ => {
+					let mut t = json_syntax::Value::Object(junk);
+					t.clone_from(&json_syntax::Value::Object(o.clone()));
+					match t {
+						json_syntax::Value::Object(c) => c,
+						_ => unreachable!(),
+					}
+				}
+			};
 			*o = c;
 			json!({"some": false})
 		}
@@ -358,13 +399,15 @@ pub fn record(args: &Args) {
 			79..=85 => "set_value",
 			86..=89 => "get_or_insert",
 			90..=92 => "sort",
-			93..=95 => "clone",
+			93..=94 => "clone",
+			95 => "clone_from",
 			96..=98 => "extend",
 			_ => "from_vec",
 		};
 		let op = match name {
 			"remove_at" | "set_value" => json!({"op": name, "k": [], "v": v, "i": rng.below(len + 2), "n": 99, "es": []}),
 			"sort" | "clone" => json!({"op": name, "k": [], "v": 0, "i": 0, "n": 99, "es": []}),
+			"clone_from" => json!({"op": name, "k": [], "v": 0, "i": 0, "n": 99, "es": bulk(&mut rng)}),
 			"extend" | "from_vec" => json!({"op": name, "k": [], "v": 0, "i": 0, "n": 99, "es": bulk(&mut rng)}),
 			"remove_unique" | "push" | "push_front" | "get_or_insert" => json!({"op": name, "k": kj, "v": v, "i": 0, "n": 99, "es": []}),
 			_ => json!({"op": name, "k": kj, "v": v, "i": 0, "n": pulls, "es": []}),
